@@ -330,6 +330,20 @@ def specials_c09():
         main += [("PUSH", gen.A_MUTATE, 20), "BALANCE", ("PUSH", 0x4C0), "MSTORE"] + ret_words(7)
         sp(f"write-after-multi-fail-{kind.lower()}", main, {gen.A_MUTATE: gen.callee_mutate()}, f"write-after-multi-fail-{kind}",
            balances=("this", "caller", gen.A_MUTATE))
+    # --- symbolic call target: every known account is an alias candidate, anything else is an empty account ------------
+    for kind in ("CALL", "STATICCALL", "DELEGATECALL"):
+        for val in ([("PUSH", 0)], [("PUSH", 1)]):
+            if kind != "CALL" and val != [("PUSH", 0)]:
+                continue
+            main = [("PUSH", 36), "CALLDATALOAD", ("PUSH", 0x100), "MSTORE", ("PUSH", 0x120), "MSTORE"] if False else [
+                ("PUSH", 36), "CALLDATALOAD", ("PUSH", 0x100), "MSTORE"]
+            site = [("PUSH", 0xE0), ("PUSH", 0x500), ("PUSH", 32), ("PUSH", 0x100)] + (val if kind == "CALL" else []) + [
+                ("PUSH", 4), "CALLDATALOAD", "GAS", kind]
+            main += site + flag_and_probe() + [("PUSH", 0x500), "MLOAD", ("PUSH", 0x440), "MSTORE", ("PUSH", 0x540), "MLOAD",
+                                              ("PUSH", 0x460), "MSTORE", ("PUSH", B, 20), "BALANCE", ("PUSH", 0x480), "MSTORE",
+                                              "SELFBALANCE", ("PUSH", 0x4A0), "MSTORE"] + ret_words(6)
+            sp(f"symbolic-target-{kind.lower()}-v{val[0][1]}", main, {B: report, C: gen.callee_short(33)}, f"symbolic-target-{kind}",
+               balances=("this", "caller", B, C))
     # --- creation inside a frame that later reverts must vanish ------------------------------------------------
     child_rt = asm.assemble(gen.callee_report())
     init = asm.creation_code(child_rt, ["CALLVALUE", ("PUSH", 3), "SSTORE"])
@@ -443,6 +457,21 @@ def specials_c08():
         it += mp(1, cd1) + ["SLOAD"] + out_(0) + [("PUSH", 1)] + mp(1, cd1) + ["ADD", "SLOAD"] + out_(1)
         it += mp(1, cd1) + [("PUSH", 2), "ADD", "SLOAD"] + out_(2)
         sp("map-struct-fields", it + ret(3), "struct-offset", (), layout)
+        # a write on one side of a branch must not be visible on the other side (storage and transient storage)
+        for ST, LD in (("SSTORE", "SLOAD"), ("TSTORE", "TLOAD")):
+            it = cd0 + [("PUSHL", "j"), "JUMPI", ("PUSH", 7), ("PUSH", 1), ST, ("PUSH", 7)] + mp(2, cd1) + [ST]
+            it += [("PUSH", 1), LD] + out_(0) + ret(1)
+            it += [("LABEL", "j"), ("PUSH", 1), LD] + out_(0) + mp(2, cd1) + [LD] + out_(1) + ret(2)
+            sp(f"branch-isolation-{ST.lower()}", it, f"branch-isolation-{ST}", (), layout)
+        # mapping(k1 => Struct[]) with a mapping field at offset 1, stride 2: positions[k1][i].rewards[k]
+        def deep(k1, i, k):
+            inner = mp(3, k1) + ["PUSH0", "MSTORE", ("PUSH", 32), "PUSH0", "SHA3"] + i + [("PUSH", 2), "MUL", "ADD", ("PUSH", 1), "ADD"]
+            return inner + [("PUSH", 32), "MSTORE"] + k + ["PUSH0", "MSTORE", ("PUSH", 64), "PUSH0", "SHA3"]
+
+        i0 = cd1 + [("PUSH", 1), "AND"]
+        it = [("PUSH", 7)] + deep(cd0, [("PUSH", 1)], cd0) + ["SSTORE"] + deep(cd0, [("PUSH", 0)], cd0) + ["SLOAD"] + out_(0)
+        it += deep(cd0, i0, cd0) + ["SLOAD"] + out_(1) + deep(cd0, [("PUSH", 1)], cd0) + ["SLOAD"] + out_(2)
+        sp("struct-array-mapping-field", it + ret(3), "nary-sum", (), layout)
         # transient storage mirrors
         it = [("PUSH", 1)] + mp(2, cd0) + ["TSTORE", ("PUSH", 2)] + mp(2, cd1) + ["TSTORE"] + mp(2, cd0) + ["TLOAD"] + out_(0)
         it += mp(2, cd0) + ["SLOAD"] + out_(1)
